@@ -39,7 +39,7 @@ CONFIG = dict(
          "further requests and notifies (nesting <= 3, including synchronous serialisation-failure callbacks) and that panic when run as a timeout completion "
          "(alone or with several entries due in the same scan, callback and nil-callback ones mixed); replies ok / empty / error / undecodable to pending, completed (late, duplicate), "
          "notify and unknown instances; raw responses for id 0, small, MaxReqId, MaxInt32 and pending ids; clock advances aimed at deadline-1000..deadline+2000 including deadline-1, deadline, "
-         "deadline+1 and the scan instants, long advances; allocator preset near MaxReqId (wrap) and at random values; node-level app.Request without a route. "
+         "deadline+1 and the scan instants, long advances; allocator preset near MaxReqId (wrap) and at random values; node-level app.Request without a route, and app.Request / app.Notify routed through the real cluster directory (UpdateClusterTopology + address resolver) to a peer that answers at once and to one that holds requests, also unroutable and unserialisable notifies; ok replies with the all-default value 0 and replies of the field-less type EmptyArg (zero bytes on the wire, must arrive non-nil and of their type), error replies with int32 codes from the whole range. "
          "A `crowd` stream spawns 3-24 services from one props (one scheDisp / run-service goroutine), parks that goroutine inside a posted closure, lets one foreign goroutine per service "
          "deliver a reply (more than the 9-slot dispatcher queue holds), releases it and checks that every reply callback, timer callback and posted closure ran on the one goroutine, never two at once. "
          "The order in which one scan runs several timeout callbacks (Go map order), and which nil-callback entries it had already removed before each of them, "
